@@ -36,12 +36,7 @@ def main():
         for prop in (want or sorted(props.PROPS)):
             try:
                 results = check.run_rules(prop, F, "quick")
-                fl = report.floors()
-                for r in results:
-                    for name, n in r.counts.items():
-                        key = "%s:%s.%s" % (prop, r.rule, name)
-                        if key in fl and n < fl[key]:
-                            raise CheckError("count below floor: %s = %d < %d" % (key, n, fl[key]))
+                deferred = check.closed_failures(prop, results)
             except CheckError as e:
                 errs[prop] = str(e)[:300]
                 continue
@@ -57,6 +52,8 @@ def main():
                     vs.append(v)
             if vs:
                 hit[prop] = vs
+            elif deferred:
+                errs[prop] = deferred[0][:300]
         for prop, vs in hit.items():
             for v in vs[:4]:
                 print("HIT %s: %s @ %s: %s" % (prop, v.full_key(), v.where, v.msg[:200]))
